@@ -114,3 +114,12 @@ package ast
 // @   loop 1 invariant forall j: 0 <= j && j < len(last.nodes) - 1 - i ==> stack[len(atentry(stack)) + j] != nil && stack[len(atentry(stack)) + j].node == last.nodes[len(last.nodes) - 1 - j] && isNil(stack[len(atentry(stack)) + j].nodes)
 // @   loop 1 invariant forall k: 0 <= k && k < len(stack) ==> stack[k] != nil
 // @   loop 1 decreases i + 1
+
+// wrapNodes keeps the elements and their order (C17: VisitMany sees exactly the elements of the field,
+// Index(i) is the i-th element).
+// @ func ast.wrapNodes
+// @   props C17
+// @   ensures[C17] same: len(result) == len(nodes) && (forall k: 0 <= k && k < len(nodes) ==> ref(result[k]) == ref(nodes[k]))
+// @   modifies nothing
+// @   loop 0 invariant 0 - 1 <= rangeindex && rangeindex < len(nodes) && len(result) == rangeindex + 1 && (forall k: 0 <= k && k <= rangeindex ==> ref(result[k]) == ref(nodes[k]))
+// @   loop 0 decreases len(nodes) - rangeindex
